@@ -1,5 +1,5 @@
 #!/bin/bash
-# tools/seeded.sh <worktree> <seed-name> <ID> [<ID>...]
+# tools/seeded.sh <worktree> <seed-name> <ID> [<ID>...]     (SLOT=<name> selects the mutants/iso.sh slot)
 # Confirms a sub-agent's seeded change (suite passes with it; demo fails with it and passes without),
 # stores it under /verif/seeded/<seed-name>/, runs the given checks against it, removes the worktree.
 wt="$1"; name="$2"; shift 2
@@ -8,8 +8,9 @@ dest=/verif/seeded/$name; mkdir -p "$dest"
 cd "$wt" || exit 2
 cp SEEDED/patch.diff "$dest/patch.diff"; cp SEEDED/seeded_demo.rs "$dest/seeded_demo.rs" 2>/dev/null || cp tests/seeded_demo.rs "$dest/seeded_demo.rs"
 cp SEEDED/NOTES.md "$dest/NOTES.agent.md" 2>/dev/null
+for f in SEEDED/*; do case "$(basename "$f")" in patch.diff|seeded_demo.rs|NOTES.md) ;; *) cp -r "$f" "$dest/" ;; esac; done
 # state 1: change applied
-git stash -q -u 2>/dev/null; git checkout -q -- . ; git clean -fdq -e SEEDED -e target
+git checkout -q -- . ; git clean -fdq -e SEEDED -e target
 git apply "$dest/patch.diff" || { echo "PATCH DOES NOT APPLY"; exit 2; }
 cp "$dest/seeded_demo.rs" tests/seeded_demo.rs
 suite=$(cargo test --workspace --no-fail-fast --offline 2>&1 | grep -E "^test result" | tr '\n' ' ')
@@ -22,7 +23,7 @@ echo "demo  without change: $without"
 cd /verif
 results=""
 for id in "$@"; do
-  out=$(timeout 1200 mutants/run.sh "$dest/patch.diff" "$id" 2>&1 | grep -v "^KNOWN-FINDING")
+  out=$(timeout 2400 mutants/iso.sh "${SLOT:-seed}" "$dest/patch.diff" "$id" 2>&1 | grep -v "^KNOWN-FINDING")
   echo "$out" | tail -6
   code=$(echo "$out" | grep -o "exit=[0-9]*" | tail -1)
   results="$results $id:$code"
